@@ -958,3 +958,6 @@ ITEMS = [
     Item('validate.failing-check', sym_validate_failing_check, [], P + 'validate.py::validate.rows_validator.func'),
     Item('recorded-findings', None, [('bounded', KF.nat_findings_c14)], 'dataflows/base/schema_validator.py::schema_validator'),
 ]
+
+from contracts import reuse as _REUSE   # noqa: E402
+ITEMS.append(Item('second-use', None, [('catalogue', _REUSE.nat_second_use_for('C14'))], 'dataflows/processors/set_type.py::set_type.process_datapackage'))
